@@ -52,7 +52,8 @@ class Sched:
 
     def _enabled(self):
         # a `get` with a time-out (or non-blocking) on an empty queue is enabled too: the time-out may fire at any moment
-        return [t for t, (k, q) in self.pending.items() if k in ("put", "tget") or q.items]
+        # … and so are queries of a queue's or a thread's state (`empty()`, `qsize()`, `is_alive()`): they never block
+        return [t for t, (k, q) in self.pending.items() if k in ("put", "tget", "peek", "alive") or q.items]
 
     def _dispatch(self):
         if self.granted is not None or self.dead:
@@ -177,10 +178,11 @@ def install(lp, sched: Sched, state: dict):
                 sched.holding[nm] = not isinstance(res, lp.StopSentinel)
                 return f"wGet:{self._w(nm)}"
             return sched.point("tget" if timed else "get", self, take, lab)
+        # queries of the queue's state are scheduling points too: whatever they report may be out of date by the time it is used
         def qsize(self):
-            return len(self.items)
+            return sched.point("peek", self, lambda: len(self.items), lambda nm, r: None) if threading.get_ident() in sched.live else len(self.items)
         def empty(self):
-            return not self.items
+            return sched.point("peek", self, lambda: not self.items, lambda nm, r: None) if threading.get_ident() in sched.live else not self.items
 
     class FakeQueueModule:
         Queue = FakeQueue
@@ -205,6 +207,13 @@ def install(lp, sched: Sched, state: dict):
                 state["worker_died"] = state.get("worker_died", 0) + 1
             finally:
                 sched.finish()
+        def is_alive(self):
+            # asked by a scheduled thread, the question is a scheduling point (the worker may finish first); the answer is the
+            # scheduler's: a worker is alive until it has left `run`
+            me = threading.get_ident()
+            if me in sched.live and me != self.ident:
+                sched.point("alive", None, lambda: None, lambda nm, r: None)
+            return self.ident in sched.live
 
     orig_reset = lp.LazyPool.finish_and_reset
 
